@@ -1,7 +1,7 @@
 (* Pins for C12: the model's literals equal what the translator read from /repo on this run, and
    frozen copies of the theorem statements. *)
 From Clvm Require Import Model.AllocHist Proofs.AllocBasics Proofs.AllocHeap Proofs.AllocOps
-  Proofs.AllocRestore Proofs.AllocReads Props.C12 Gen.AllocConsts.
+  Proofs.AllocRestore Proofs.AllocReads Proofs.AllocInv Proofs.AllocSim Proofs.AllocStraddle Props.C12 Gen.AllocConsts.
 Open Scope N_scope.
 
 Lemma pin_alloc_consts :
@@ -72,3 +72,52 @@ Check (fun a a' da dp dh => eq_refl : bump a a' da dp dh =
 Check (fun a => eq_refl : counts_ok a =
   (heap_limit a <= U32_MAX /\ atom_count a <= MAX_NUM_ATOMS /\ pair_count a <= MAX_NUM_PAIRS /\
    heap_size a <= heap_limit a)).
+
+(* the whole-history theorem and the definitions it is stated with *)
+Check (C12_history : forall fx limit h st, 1 <= limit -> Forall wf_op2 h ->
+  a_final fx limit h = Some st -> a_dead st = false -> a_f2 st = false ->
+  (forall st0, a_init limit = Ok st0 -> substr_clean fx st0 h) ->
+  a_counts st = rs_counts (r_final limit h) /\ r_dead (r_final limit h) = false /\
+  heap_limit (a_al st) = r_limit (r_st (r_final limit h)) /\
+  Forall2 (fun n t => denote (hp (a_al st)) n = Some t) (a_nodes st) (r_nodes (r_final limit h))).
+Check (C12_history_unrepaired : forall limit h st, 1 <= limit -> Forall wf_op2 h ->
+  a_final false limit h = Some st -> a_dead st = false -> a_f2 st = false ->
+  a_counts st = rs_counts (r_final limit h)).
+Check (C12_no_straddle : forall fx st o, AINV st -> NSI st -> NSI (fst (a_step fx st o))).
+Check (C12_maybe_restore_total : forall fx st k i, AINV st -> NSI st ->
+  snd (a_step fx st (OMaybeRestore k i)) <> ObErr (InternalError 5)).
+Check (C12_step : forall fx st rs o, SIM st rs -> wf_op2 o ->
+  a_dead (fst (a_step fx st o)) = false -> a_f2 (fst (a_step fx st o)) = false ->
+  step_ok fx o (snd (a_step fx st o)) ->
+  SIM (fst (a_step fx st o)) (fst (r_step rs o))).
+Check (C12_init : forall limit st, 1 <= limit -> a_init limit = Ok st -> SIM st (r_init limit)).
+Check (eq_refl : wf_op2 = fun o =>
+  match o with
+  | ONewAtom b => wf_bytes b = true
+  | ONewU64 v => v < 2 ^ 64
+  | ONewI64 z => (- 2 ^ 63 <= z < 2 ^ 63)%Z
+  | _ => True
+  end).
+Check (eq_refl : substr_ok = fun fx o ob =>
+  match o with
+  | ONewSubstr _ _ _ => fx = false \/ ob <> ObErr OutOfMemory
+  | _ => True
+  end).
+Check (fun fx st o r => eq_refl : substr_clean fx st (o :: r) =
+  (substr_ok fx o (snd (a_step fx st o)) /\ substr_clean fx (fst (a_step fx st o)) r)).
+Check (fun fx st => eq_refl : substr_clean fx st [] = True).
+Check (eq_refl : step_ok = fun fx o ob =>
+  match o with
+  | ONewSubstr _ _ _ => fx = false \/ ob <> ObErr OutOfMemory
+  | OMaybeRestore _ _ => ob <> ObErr (InternalError 5)
+  | _ => True
+  end).
+Check (eq_refl : NSI = fun st => forall e, In e (a_cps st) ->
+  Forall (fun se => fst se < c_u8s (cp_tcp e) -> snd se <= c_u8s (cp_tcp e)) (atoms (hp (a_al st)))).
+Check (eq_refl : a_counts = fun st => counts (a_al st)).
+Check (eq_refl : rs_counts = fun st => r_counts (r_st st)).
+Check (eq_refl : a_final = fun fx limit h =>
+  match a_init limit with Ok st => Some (fst (a_run fx st h)) | Err _ => None end).
+Check (eq_refl : r_final = fun limit h => fst (r_run (r_init limit) h)).
+Check (fun st rs (H : SIM st rs) => conj (sim_inv st rs H) (sr_counts st rs (sim_r st rs H))
+  : AINV st /\ counts (a_al st) = r_counts (r_st rs)).
